@@ -64,6 +64,19 @@ fn main() {
     if argv.get(1).map(|s| s.as_str()) == Some("--child") {
         let name = argv.get(2).cloned().unwrap_or_default();
         let rest: Vec<String> = argv[3.min(argv.len())..].to_vec();
+        // canaries for the instrumented passes: the driver requires the sanitizer / interpreter to flag
+        // canary-oob before it believes that tool's silence on the workload
+        if name == "canary-ok" {
+            std::process::exit(0);
+        }
+        if name == "canary-oob" {
+            let v: Vec<u8> = vec![1u8; 8 + rest.len()];
+            let p = v.as_ptr();
+            // deliberate heap out-of-bounds read, one past the allocation
+            let x = unsafe { std::ptr::read_volatile(p.add(v.len() + 8)) };
+            println!("canary read {}", x);
+            std::process::exit(0);
+        }
         // isolated sub-cases: each module claims the names it knows, None = not mine
         let code = None
             .or_else(|| vh_codec::child(&name, &rest))
